@@ -30,6 +30,9 @@ pub fn ledger_loco(pre: &Locomotive, post: &Locomotive, dt: f64, f: &mut Vec<Str
             chk(f, &format!("{}gen balance mech_in = prop + aux + loss", tag), gs.pwr_mech_in.value, gs.pwr_elec_prop_out.value + gs.pwr_elec_aux.value + gs.pwr_loss.value, p);
             chk(f, &format!("{}edrv balance elec_in = mech_out + loss", tag), es.pwr_elec_prop_in.value, es.pwr_mech_prop_out.value + es.pwr_loss.value, p);
             chk(f, &format!("{}wheel = prop - dyn brake", tag), ls.pwr_out.value, es.pwr_mech_prop_out.value - es.pwr_mech_dyn_brake.value, p);
+            // the auxiliary load the locomotive reports is the one its generator served (zero with the engine off)
+            if ls.pwr_aux.value != gs.pwr_elec_aux.value { f.push(format!("{}locomotive auxiliary power {} != the generator's auxiliary output {}", tag, ls.pwr_aux.value, gs.pwr_elec_aux.value)); }
+            inc(ls.energy_aux.value, pre.state.energy_aux.value, ls.pwr_aux.value, "loco.energy_aux", f);
             chk(f, &format!("{}ledger fuel = wheel + dyn + aux + losses", tag), fs.pwr_fuel.value,
                 ls.pwr_out.value + es.pwr_mech_dyn_brake.value + gs.pwr_elec_aux.value + fs.pwr_loss.value + gs.pwr_loss.value + es.pwr_loss.value, p);
             inc(fs.energy_fuel.value, c0.fc.state.energy_fuel.value, fs.pwr_fuel.value, "fc.energy_fuel", f);
